@@ -28,7 +28,7 @@ ANCHORS = ['classes:PaneBase.__init_subclass__', 'classes:PaneBase.__class_getit
            'classes:PaneOptions.replace']
 MIN_COUNTERS = {'quick': {'hierarchies': 2500, 'signature_checks': 2500, 'stdlib_mirror_checks': 2000, 'generic_hierarchies': 1200,
                           'substituted_field_conversions': 8000, 'option_inheritance_checks': 2500, 'redeclared_fields': 800,
-                          'custom_inherited_checks': 300, 'inner_generic_checks': 2000, 'plain_subclass_field_checks': 800, 'mixin_first_classes': 200, 'multi_base_generic_checks': 1000}}
+                          'custom_inherited_checks': 300, 'inner_generic_checks': 2000, 'plain_subclass_field_checks': 800, 'mixin_first_classes': 200, 'multi_base_generic_checks': 1000, 'same_name_generic_checks': 400}}
 
 TVS = {n: t.TypeVar(n) for n in ('T', 'U', 'V', 'W')}
 
@@ -892,3 +892,62 @@ def run(ctx):
                     return
 
     drive.for_each_case(ctx, 'multi-base-generics', 60, body_multi_base_generics, gen=lambda c, r: Ty('int'))
+
+    # two DISTINCT generic classes that share module and qualified name (a class statement re-run, a class factory called twice, the
+    # partial subscriptions Pair[T, int] / Pair[int, T]) subscripted with the same arguments one after the other: each subscription
+    # belongs to ITS class - fields, order, constructor signature, options, substituted field types (round 11: a subscription cache
+    # keyed by name instead of by class object)
+    def body_same_name_generics(i, rng, ty, T):
+        import inspect as _inspect
+        import types as _types
+        import warnings as _warnings
+        TA, TB = t.TypeVar('TA'), t.TypeVar('TB')
+        n = next(_serial)
+        with _warnings.catch_warnings():
+            _warnings.simplefilter('ignore')
+            kind = rng.choice(('factory-twice', 'redefined-with-options', 'partial-subscriptions'))
+            arg, good, bad = rng.choice(((str, 's', 5), (int, 5, 's'), (t.List[int], [1], ['a'])))
+            if kind == 'partial-subscriptions':
+                Pair = _types.new_class(f"SNPair{n}", (env.PaneBase, t.Generic[TA, TB]), {},
+                                        lambda ns: ns.update({'__annotations__': {'first': TA, 'second': TB}, '__module__': __name__}))
+                specs = [(lambda: Pair[TA, bool][arg], ['first', 'second'], {'first': good, 'second': True}, {'first': bad, 'second': True}, None),
+                         (lambda: Pair[bool, TA][arg], ['first', 'second'], {'first': True, 'second': good}, {'first': True, 'second': bad}, None)]
+            else:
+                def factory(fields, **opts):
+                    return _types.new_class(f"SNBox{n}", (env.PaneBase, t.Generic[TA]), opts,
+                                            lambda ns: ns.update({'__annotations__': dict(fields), '__module__': __name__, '__qualname__': f"SNBox{n}"}))
+                o1 = {} if kind == 'factory-twice' else {'out_format': 'tuple'}
+                specs = [(lambda: factory([('item', TA), ('note', str)], **o1)[arg], ['item', 'note'], {'item': good, 'note': 'n'}, {'item': bad, 'note': 'n'}, o1),
+                         (lambda: factory([('label', str), ('items', t.List[TA])])[arg], ['label', 'items'], {'label': 'l', 'items': [good]}, {'label': 'l', 'items': [bad]}, {})]
+            if rng.random() < 0.5:
+                specs.reverse()
+            for step, (mk, names, ok_data, bad_data, opts) in enumerate(specs):
+                built = observe(mk)
+                ctx.count('same_name_generic_subscriptions')
+                ctx.case(('same-name-generics', kind, step, built.kind), nontrivial=True)
+                wit = {'shape': kind, 'step': step, 'argument': short(arg, 40), 'expected_fields': names}
+                if built.kind != 'value':
+                    ctx.violation('type-variable-substitution', 'same-name-generics', i, {**wit, 'subscript': built.brief()[:250]}, mech=f"same-name-generic-unusable:{kind}")
+                    return
+                C = built.val
+                got = [f.name for f in C.__pane_info__.fields]
+                sig = [p for p in _inspect.signature(C).parameters]
+                if got != names or sig != names:
+                    ctx.violation('field-order', 'same-name-generics', i, {**wit, 'fields': got, 'signature': sig}, mech=f"subscription-of-another-class-with-the-same-name:{kind}")
+                    return
+                for data, must in ((ok_data, True), (bad_data, False)):
+                    o = observe(C.from_data, data)
+                    ctx.count('same_name_generic_checks')
+                    if o.kind == 'escape' or (o.kind == 'value') != must:
+                        ctx.violation('conversion-enforces-substituted-types', 'same-name-generics', i,
+                                      {**wit, 'data': short(data, 100), 'must_accept': must, 'pane': o.brief()[:200],
+                                       'field_types': short({f.name: f.type for f in C.__pane_info__.fields}, 200)}, mech=f"same-name-generic-wrong-field-type:{kind}")
+                        return
+                if opts:
+                    d = observe(lambda: C.from_data(ok_data).into_data())
+                    if d.kind != 'value' or not isinstance(d.val, (list, tuple)):
+                        ctx.violation('option-inheritance', 'same-name-generics', i, {**wit, 'options': opts, 'into_data': d.brief()[:200]},
+                                      mech=f"same-name-generic-options-of-another-class:{kind}")
+                        return
+
+    drive.for_each_case(ctx, 'same-name-generics', 60, body_same_name_generics, gen=lambda c, r: Ty('int'))
